@@ -339,6 +339,14 @@ class Analysis:
                                     self.pinned = {}
                                 self.pinned[k] = init[k]
             self.extra_missing = sorted(want)
+        # pointer parameters are cursors of an array of unknown size (offset 0 at entry) in functions that compare
+        # pointer locals with each other: `end = p + 40; for (p += 1; p < end; p += 3)` is then a counted loop
+        if self._compares_pointers():
+            for p in f.params:
+                if p.get("t", "").rstrip().endswith("*") and "it" not in p and p["name"] not in self.taken:
+                    ok, pk = self._ptr_keys(p["name"])
+                    init[pk] = (None, "*" + p["name"])
+                    init[ok] = (0, 0)
         self.caps = {}
         self.IN = self._forward(init)
         # second phase: counters of loops with a bounded trip count are capped
@@ -539,6 +547,10 @@ class Analysis:
                 if e["k"] in ("ref", "mem") and "it" in e and "v" not in e:
                     key = self.track_key(n)
                     v = entry_state.get(key) if key is not None else None
+                    if v is not None and v[0] is not None and v[0] == v[1]:
+                        return True
+                elif e["k"] == "ref" and e.get("dk") in ("local", "param") and ("pb", e.get("name")) in entry_state:
+                    v = entry_state.get(("iv", "@" + e["name"]))
                     if v is not None and v[0] is not None and v[0] == v[1]:
                         return True
         return False
@@ -1218,6 +1230,25 @@ class Analysis:
         if e["k"] == "ref" and e.get("dk") in ("local", "param") and ("pb", e.get("name")) in st:
             return e["name"]
         return None
+
+    def _compares_pointers(self):
+        f = self.f
+        c = f._cache.get("compares_pointers")
+        if c is None:
+            c = False
+            for e in f.exprs:
+                if e["k"] == "bin" and e["op"] in ("<", ">", "<=", ">="):
+                    ts = []
+                    for x in e["c"]:
+                        xe = f.exprs[ex.skip(f, x)]
+                        while xe["k"] == "cast" and xe.get("ck") in ("NoOp", "BitCast", "LValueToRValue"):
+                            xe = f.exprs[ex.skip(f, xe["c"][0])]
+                        ts.append(xe["k"] == "ref" and xe.get("dk") in ("local", "param") and xe.get("t", "").rstrip().endswith("*"))
+                    if all(ts):
+                        c = True
+                        break
+            f._cache["compares_pointers"] = c
+        return c
 
     def _cursor_peers(self, name):
         """Pointer locals `name` is compared with (their offsets are the natural widening thresholds)."""
